@@ -286,8 +286,9 @@ class ParentConsistency(Case):
                   bad_ids=len(ids) > 1 or len(types) > 1, bad_strand=bad_strand, too_long=too_long)
 
     def ground(self):
-        for pid in (None, "chr1"):
-            for ptype in (None, "chromosome"):
+        # "" is a VALUE (only None means 'not given'): an empty id / type conflicts with a real one
+        for pid in (None, "chr1", ""):
+            for ptype in (None, "chromosome", ""):
                 for strand in (None, "PLUS", "MINUS"):
                     for loc in (None, dict(end=3, strand="PLUS", parent=None), dict(end=6, strand="MINUS", parent="chr2"),
                                 dict(end=3, strand="PLUS", parent="chr1")):
